@@ -25,8 +25,9 @@ fn plan(check: &str, tier: &str) -> (u64, f64) {
         "C17" => 40_000,
         "C14" | "C15" => 25_000,
         "C08" => 15_000,
-        "C03" => 10_000,
-        "C09" | "C18" => 7_000,
+        "C03" => 8_000,
+        "C09" => 5_500,
+        "C18" => 7_000,
         "C20" => 4_500,
         "C10" => 2_500,
         "C11" => 2_000,
